@@ -11,7 +11,7 @@ import (
 
 func init() {
 	register(&propDef{ID: "C03", Level: "other",
-		Decides:    "the key hand-off protocol order on every path of transferKeysUpward/transferKeysDownward: RangeKeys -> Export -> peer.Import -> RemoveKeys, each step only on the success edge of the previous one, the same key slice flowing through all four; a failed step reaches the caller as a non-nil error; the callers (RequestToJoin, executeLeave) publish the hand-off (joined flag, surrogate pointer) only on the success edge, call the transfer only with surrogateMu write-held and after their own lifecycle CAS; LocalNode.Import takes surrogateMu exclusively and refuses in Inactive/Leaving/Left; in Join and Leave the pointer advisory to the predecessor is never sent after the successor's membership lock was released (a predecessor leaving in that window hands its keys to a node that no longer owns them).",
+		Decides:    "the key hand-off protocol order on every path of transferKeysUpward/transferKeysDownward: RangeKeys -> Export -> peer.Import -> RemoveKeys, each step only on the success edge of the previous one, the same key slice flowing through all four; a failed step reaches the caller as a non-nil error; the callers (RequestToJoin, executeLeave) publish the hand-off (joined flag, surrogate pointer) only on the success edge, call the transfer only with surrogateMu write-held and after their own lifecycle CAS; LocalNode.Import takes surrogateMu exclusively and refuses in Inactive/Leaving/Left; in Join and Leave the pointer advisory to the predecessor is never sent after the successor's membership lock was released (a predecessor leaving in that window hands its keys to a node that no longer owns them); the sqlite donor-side removal deletes the moved keys from every table by the table's key column (a leftover row makes removed data reappear when the range comes back).",
 		NotDecided: "that acknowledged writes survive arbitrary interleavings (needs executions); RemoveKeys errors are only logged.",
 		Run:        runC03})
 	register(&propDef{ID: "C04", Level: "other",
@@ -175,6 +175,7 @@ func namedErrResult(g *Fn) *ast.Ident {
 
 func runC03(c *Ctx) {
 	advisoryBeforeRelease(c)
+	removeKeysCoverage(c, "handoff-removal")
 	kvKeys := func(m string) []string { return []string{"spec/chord.KVProvider." + m, "spec/chord.KV." + m} }
 	for _, name := range []string{"transferKeysUpward", "transferKeysDownward"} {
 		fn := chordFn(c, "LocalNode", name)
